@@ -87,27 +87,13 @@ Theorem C16_queue_flushed_on_timeout : forall s before after p s' o,
   in_list (permissions s') (pm_peer p) = true.
 Proof. exact timeout_flushes. Qed.
 
-(** ** No packet makes the socket read outside it -- except on the [recv:] ChannelData path.
-    Every read of the model goes through [rd], which answers [Fault] outside the packet.
-    [chan_overread s b]: RFC 5766 / draft-09 mode, a channel is bound, and the packet is shorter than the
-    ChannelData header that is read from it or announces more data than it carries. *)
-Theorem C16_no_fault_except_channeldata_overread : forall s from b,
-  bytes_ok b -> recv s from b = Fault -> chan_overread s b = true.
-Proof. exact recv_fault_only_channeldata. Qed.
-Theorem C16_no_fault : forall s from b, bytes_ok b -> chan_overread s b = false -> exists r, recv s from b = Ok r.
-Proof. exact recv_no_fault. Qed.
-(* the exception is exact: any such packet from an address other than the server's faults *)
-Theorem C16_no_fault_exception_is_exact : forall s from b,
-  addr_eqb (c_server (cf s)) from = false -> chan_overread s b = true -> recv s from b = Fault.
-Proof. exact recv_fault_when_overread. Qed.
-Theorem C16_no_fault_refuted_channeldata_length :
-  bytes_ok [64; 0; 0; 100; 170; 187; 204; 221] /\
-  recv FaultProofs.ex_state FaultProofs.ex_server [64; 0; 0; 100; 170; 187; 204; 221] = Fault.
-Proof. exact no_fault_refuted_channeldata_length. Qed.
-Theorem C16_no_fault_refuted_short_packet :
-  bytes_ok [64; 0] /\ recv FaultProofs.ex_state FaultProofs.ex_peer [64; 0] = Fault /\
-  recv FaultProofs.ex_state FaultProofs.ex_server [64] = Fault.
-Proof. exact no_fault_refuted_short_packet. Qed.
+(** ** No packet makes the socket read outside it.
+    Every read of the model goes through [rd], which answers [Fault] outside the packet; [recv] never
+    answers [Fault], for every byte string, source address and socket state.  (Before /repo commit 7dada38 the
+    [recv:] path took a ChannelData header from packets too short for it and believed its length field;
+    the minimised triggers stay in the corpus of props/C16.py.) *)
+Theorem C16_no_fault : forall s from b, bytes_ok b -> exists r, recv s from b = Ok r.
+Proof. exact recv_never_faults. Qed.
 
 (** ** Non-vacuity *)
 Example C16_wrap_nonvacuous :
@@ -131,8 +117,14 @@ Example C16_queue_nonvacuous :
     data_for qx_A o = accepted_for qx_A acc /\ data_for qx_B o = accepted_for qx_B acc /\
     in_list (permissions s) qx_A = true /\ in_list (permissions s) qx_B = true.
 Proof. exact queue_run_example. Qed.
+(* a well-formed ChannelData packet is unwrapped; a lying length field and 1-2 byte packets are passed through *)
 Example C16_no_fault_nonvacuous :
-  chan_overread FaultProofs.ex_state [64; 0; 0; 2; 7; 8] = false /\
   recv FaultProofs.ex_state FaultProofs.ex_server [64; 0; 0; 2; 7; 8]
-  = Ok (FaultProofs.ex_state, [], RxData {| h_data := [7; 8]; h_from := FaultProofs.ex_peer; h_sock := true |}).
+    = Ok (FaultProofs.ex_state, [], RxData {| h_data := [7; 8]; h_from := FaultProofs.ex_peer; h_sock := true |}) /\
+  recv FaultProofs.ex_state FaultProofs.ex_server [64; 0; 0; 100; 170; 187; 204; 221]
+    = Ok (FaultProofs.ex_state, [], RxData {| h_data := [64; 0; 0; 100; 170; 187; 204; 221]; h_from := FaultProofs.ex_server; h_sock := false |}) /\
+  recv FaultProofs.ex_state FaultProofs.ex_peer [64; 0]
+    = Ok (FaultProofs.ex_state, [], RxData {| h_data := [64; 0]; h_from := FaultProofs.ex_peer; h_sock := false |}) /\
+  recv FaultProofs.ex_state FaultProofs.ex_server [64]
+    = Ok (FaultProofs.ex_state, [], RxData {| h_data := [64]; h_from := FaultProofs.ex_server; h_sock := false |}).
 Proof. exact no_fault_examples. Qed.
